@@ -20,6 +20,15 @@
    The errno of a thread before its first assignment is not constrained by the property:
    e[t] = <<>> (unknown) until the first assignment or observation, which binds it.
 
+   Embedding (EmbEnter): C code of a thread may also enter Python by calling a dll-exported
+   extern "Python" function of an EMBEDDED module (ffi.embedding_api).  How the call gets to
+   the Python function is the mode m: "emb1" = this call starts the interpreter / runs the
+   module's init code first, "embw" = it arrives while another thread is doing that and has
+   to wait for it, "emb" = the module is initialised already.  The property makes no
+   difference: whatever start-up runs between the C caller and the Python function is
+   invisible, e[t] is unchanged by the entry in every mode (so the GetG of an ffi.errno read
+   inside the function and the CbExitG of the C caller judge it like any other callback).
+
    Every action is split into a context guard (XxxC: bookkeeping of the harness), a guard
    (XxxG: the clause of the property) and an effect (XxxE), so that the trace specification
    gives total verdicts naming the failing clause. *)
@@ -51,6 +60,8 @@ ClobberC(t)   == InPy(t)
 CallEnterC(t) == InPy(t) /\ Len(stk[t]) < MaxLen
 CSetC(t)      == InC(t)
 CbEnterC(t)   == InC(t) /\ Len(stk[t]) < MaxLen
+EmbModes == {"emb1", "embw", "emb"}
+EmbEnterC(t, m) == InC(t) /\ Len(stk[t]) < MaxLen /\ m \in EmbModes
 CbExitC(t)    == InPy(t) /\ Len(stk[t]) > 0
 CallExitC(t)  == InC(t) /\ Top(t) # "raw"
 
@@ -72,6 +83,9 @@ CSetE(t, v)         == /\ e' = [e EXCEPT ![t] = <<v>>]
                        /\ obs' = [obs EXCEPT ![t] = <<>>] /\ UNCHANGED stk
 CbEnterE(t, k)      == /\ stk' = [stk EXCEPT ![t] = Append(@, k)]
                        /\ obs' = [obs EXCEPT ![t] = <<>>] /\ UNCHANGED e
+\* entering an embedded module, start-up included: the thread's errno is untouched
+EmbEnterE(t, m)     == /\ stk' = [stk EXCEPT ![t] = Append(@, m)]
+                       /\ obs' = [obs EXCEPT ![t] = <<>>] /\ UNCHANGED e
 CbExitE(t, o)       == /\ e' = [e EXCEPT ![t] = <<o>>]
                        /\ stk' = [stk EXCEPT ![t] = Pop(@)]
                        /\ obs' = [obs EXCEPT ![t] = <<o>>]
@@ -84,6 +98,7 @@ Clobber(t)         == ClobberC(t) /\ ClobberE(t)
 CallEnter(t, p, o) == CallEnterC(t) /\ CallEnterG(t, p, o) /\ CallEnterE(t, p, o)
 CSet(t, v)         == CSetC(t) /\ CSetE(t, v)
 CbEnter(t, k)      == CbEnterC(t) /\ CbEnterE(t, k)
+EmbEnter(t, m)     == EmbEnterC(t, m) /\ EmbEnterE(t, m)
 CbExit(t, o)       == CbExitC(t) /\ CbExitG(t, o) /\ CbExitE(t, o)
 CallExit(t)        == CallExitC(t) /\ CallExitE(t)
 
@@ -91,6 +106,7 @@ IStep(t) == \/ \E v \in Vals : Set(t, v) \/ Get(t, v) \/ CSet(t, v) \/ CbExit(t,
             \/ Clobber(t) \/ CallExit(t)
             \/ \E p \in Paths, o \in Vals : CallEnter(t, p, o)
             \/ \E k \in Kinds : CbEnter(t, k)
+            \/ \E m \in EmbModes : EmbEnter(t, m)
 INext == \E t \in Threads : IStep(t)
 ISpec == IInit /\ [][INext]_ivars
 
